@@ -92,3 +92,34 @@ func TestNtlmLibraryPanicWitnesses(t *testing.T) {
 	odd.Type = ntlm.UnicodeStringPayload
 	try("(*PayloadStruct).String(odd-length UTF-16)", func() { _ = odd.String() })
 }
+
+// The assumption about ProcessAuthenticateMessage is restricted to the FIRST response a session
+// checks (ghost map pamUsed in ntlm.spec). This witness shows why: the keys of the first user stay.
+func TestNtlmSessionKeepsFirstUsersKeys(t *testing.T) {
+	log.SetOutput(io.Discard)
+	defer log.SetOutput(os.Stderr)
+	server, _ := ntlm.CreateServerSession(ntlm.Version2, ntlm.ConnectionOrientedMode)
+	server.SetRequireNtHash(true)
+	client, _ := ntlm.CreateClientSession(ntlm.Version2, ntlm.ConnectionOrientedMode)
+	client.SetUserInfo("alice", "alice-secret", "")
+	nm, _ := client.GenerateNegotiateMessage()
+	server.ProcessNegotiateMessage(nm)
+	cm, _ := server.GenerateChallengeMessage()
+	cm2, _ := ntlm.ParseChallengeMessage(cm.Bytes())
+	client.ProcessChallengeMessage(cm2)
+	am, _ := client.GenerateAuthenticateMessage()
+	good, _ := ntlm.ParseAuthenticateMessage(am.Bytes(), 2)
+	spoiled := append([]byte{}, am.Bytes()...)
+	spoiled[int(am.NtChallengeResponseFields.Offset)] ^= 0xff
+	bad, _ := ntlm.ParseAuthenticateMessage(spoiled, 2)
+	server.SetUserInfo("alice", "alice-secret", "")
+	if err := server.ProcessAuthenticateMessage(bad); err == nil {
+		t.Fatal("spoiled response accepted")
+	}
+	server.SetUserInfo("bobby", "bobby-secret", "")
+	if err := server.ProcessAuthenticateMessage(good); err == nil {
+		t.Log("second response on the session was checked against the first user's password: accepted although SetUserInfo named bobby")
+	} else {
+		t.Log("second response refused (library no longer keeps the first user's keys)")
+	}
+}
